@@ -8,6 +8,8 @@ CONSTANTS
   MaxIntents = 2
   TxnId = {"t1", "t2"}
   WithFaults = FALSE
+  FailKinds = {"none"}
+  TmoKinds = {"short"}
   WithLifecycle = TRUE
   InitDevice <- GenCoreInit
 INVARIANT Emit
